@@ -155,6 +155,10 @@ def insertion_cases():
              lambda t, c: t['entries'].append(('loop', ['_n1', '_n3'], [[u('1'), u('3')], [u('4'), u('6')]])))
           mk('dup-in-loop-header-last', ['loop_', '_n1', '_n2', first_name, '1 2 3', '4 5 6'], CIF_DUP_ITEMNAME,
              lambda t, c: t['entries'].append(('loop', ['_n1', '_n2'], [[u('1'), u('2')], [u('4'), u('5')]])))
+        # a header all of whose names are dropped: the loop vanishes with its values, the parse goes on
+        if follows_original:
+            mk('dup-only-name-in-loop-header', ['loop_', first_name, '1 2 3'], CIF_DUP_ITEMNAME)
+        mk('invalid-only-name-in-loop-header', ['loop_', '_', '2 3'], CIF_INVALID_ITEMNAME)
         mk('dup-within-loop-header', ['loop_', '_w1', '_w2', '_W1', '1 2 3', '4 5 6'], CIF_DUP_ITEMNAME,
            lambda t, c: t['entries'].append(('loop', ['_w1', '_w2'], [[u('1'), u('2')], [u('4'), u('5')]])))
         if follows_original:
